@@ -82,6 +82,12 @@ CHECKS["C16"] = dict(
     text="Every listed mutation of 5 valid provisioning/publication CMS messages, of their XML content re-signed with the registered identity key, of the valid JSON body of each of the body-reading API routes, and of every path parameter of all routes of the route table: no panic on any thread (panic hook), no process death, no hang; an error outcome (refusal / 4xx / 5xx) leaves the stored state unchanged apart from the audit record of a rejected command; afterwards the daemon still answers, every entity reloads and (protocol part) the repository is still relying-party valid.",
     note="'Every byte string' is not enumerable: the input space is the stated mutation neighbourhood of valid messages plus all strings of length <=1 (quick) / <=2 (thorough). The harness profile mirrors the release profile (overflow checks off, debug assertions off) but unwinds instead of aborting so that the sweep can continue after a panic. TLS/socket layers are not exercised. Two panics inside the rpki dependency are recorded as known findings (not fixable in this repository).")
 
+CHECKS["C13"] = dict(
+    engine="E4", category="model_checking", design="4/C13",
+    technique="exhaustive enumeration of (route x caller x addressed CA x testbed mode) against the daemon's real HTTP service (authentication provider chain, dispatch, permission gates) over an in-memory connection, compared with a reference evaluation of the route table and the role semantics; the route table is checked against the dispatch sources at run time",
+    text="Every route of the table (all methods the dispatch code serves) x every caller - anonymous, wrong token, admin token, unmapped system user, and a system user mapped to each of ~140 (quick) / ~180 (thorough) roles: full, none, login only, and for every permission P: all-but-P, only-P, login+P, login+ca-read+P, login+pub-admin+P, unscoped and scoped to a CA - x addressed CA (the scoped one / another one): served exactly when the reference grants login (versioned API), the sub-tree gate and the operation's permission for that CA; refused requests (sent with a valid body) leave the stored state byte-for-byte unchanged; without credentials only the open endpoints are served; testbed self-service is served only in testbed mode; the CA list and the bulk issues list show a caller exactly the CAs it may read.",
+    note="Roles with both a blanket and per-CA grants that differ (Role::complex) cannot be expressed in the configuration and are not enumerated. OpenID Connect and config-file users are C20's subject; here role-bearing callers use the Unix-socket provider (peer user set as the socket listener does). Served = any status other than 401/403.")
+
 CHECKS["C10"] = dict(
     engine="E1", category="model_checking", design="4/C10",
     technique="explicit-state exploration (fork-checkpointed DFS) of publication-delta sequences from several publishers on the real RepositoryManager against a per-publisher reference map",
